@@ -167,6 +167,14 @@ func (ps *pathState) fork(alt Dec) {
 	ps.eng.push(p)
 }
 
+func (ps *pathState) forkN(alt ...Dec) {
+	p := make([]Dec, len(ps.trace)+len(alt))
+	copy(p, ps.trace)
+	copy(p[len(ps.trace):], alt)
+	ps.forks++
+	ps.eng.push(p)
+}
+
 func (ps *pathState) check(t *smt.Term) smt.Result {
 	ps.queries++
 	r := ps.sol.CheckWith(t)
@@ -265,6 +273,8 @@ func (i *interpreter) condBool(fr *frame, v value) bool {
 }
 
 // concretise returns a concrete value for t, forking over its feasible values.
+// The feasible values are enumerated in batches on the discovering path so
+// that the sibling paths can run in parallel.
 func (i *interpreter) concretise(fr *frame, t *smt.Term, why string) uint64 {
 	ps := i.ps
 	c := ps.ctx
@@ -284,31 +294,131 @@ func (i *interpreter) concretise(fr *frame, t *smt.Term, why string) uint64 {
 			n++
 			continue
 		}
-		ps.queries++
-		r := ps.sol.Check()
-		if r == smt.Unsat {
+		// enumerate up to batch feasible values
+		const batch = 64
+		var vals []uint64
+		exhausted := false
+		ps.sol.Push()
+		for len(vals) < batch {
+			ps.queries++
+			r := ps.sol.Check()
+			if r == smt.Unsat {
+				exhausted = true
+				break
+			}
+			if r == smt.Unknown {
+				ps.unknowns++
+				ps.sol.Pop()
+				i.abort(outInconclusive, "solver unknown at concretisation (%s) at %s", why, i.posOf(fr))
+			}
+			mv, err := ps.sol.Values([]*smt.Term{t})
+			if err != nil {
+				ps.sol.Pop()
+				i.abort(outInconclusive, "no model at concretisation: %v", err)
+			}
+			v, _ := smt.ParseVal(mv[t])
+			vals = append(vals, v)
+			ps.sol.Assert(c.Not(c.Eq(t, c.Const(v, t.W))))
+		}
+		ps.sol.Pop()
+		if len(vals) == 0 {
 			i.abort(outInfeasible, "path condition unsatisfiable at concretisation (%s)", why)
 		}
-		if r == smt.Unknown {
-			ps.unknowns++
-			i.abort(outInconclusive, "solver unknown at concretisation (%s) at %s", why, i.posOf(fr))
+		if n+len(vals) > ps.concCap || (!exhausted && n+len(vals) >= ps.concCap) {
+			i.abort(outBound, "more than %d feasible values for %s at %s", ps.concCap, why, i.posOf(fr))
 		}
-		vals, err := ps.sol.Values([]*smt.Term{t})
-		if err != nil {
-			i.abort(outInconclusive, "no model at concretisation: %v", err)
+		for _, v := range vals[1:] {
+			ps.forkN(Dec{'e', v})
 		}
-		v, _ := smt.ParseVal(vals[t])
-		k := c.Const(v, t.W)
-		if ps.check(c.Not(c.Eq(t, k))) != smt.Unsat {
-			if n+1 >= ps.concCap {
-				i.abort(outBound, "more than %d feasible values for %s at %s", ps.concCap, why, i.posOf(fr))
+		if !exhausted {
+			ds := make([]Dec, len(vals))
+			for k, v := range vals {
+				ds[k] = Dec{'n', v}
 			}
-			ps.fork(Dec{'n', v})
+			ps.forkN(ds...)
 		}
-		ps.record(Dec{'e', v})
-		ps.sol.Assert(c.Eq(t, k))
-		return v
+		ps.record(Dec{'e', vals[0]})
+		ps.sol.Assert(c.Eq(t, c.Const(vals[0], t.W)))
+		return vals[0]
 	}
+}
+
+// concretiseRange is concretise for a term known to lie in [lo, hi]: every
+// candidate becomes a sibling path without a feasibility query on the
+// discovering path; a candidate path checks its own feasibility first.
+func (i *interpreter) concretiseRange(fr *frame, t *smt.Term, lo, hi uint64, why string) uint64 {
+	ps := i.ps
+	c := ps.ctx
+	if t.IsConst() {
+		return t.V
+	}
+	if ps.replaying() {
+		d := ps.nextDec("r")
+		ps.sol.Assert(c.Eq(t, c.Const(d.V, t.W)))
+		if !ps.replaying() {
+			ps.queries++
+			switch ps.sol.Check() {
+			case smt.Unsat:
+				i.abort(outInfeasible, "candidate value infeasible")
+			case smt.Unknown:
+				ps.unknowns++
+			}
+		}
+		return d.V
+	}
+	// a term that has a single feasible value is not a choice
+	ps.queries++
+	switch ps.sol.Check() {
+	case smt.Unsat:
+		i.abort(outInfeasible, "path condition unsatisfiable at concretisation (%s)", why)
+	case smt.Unknown:
+		ps.unknowns++
+		i.abort(outInconclusive, "solver unknown at concretisation (%s) at %s", why, i.posOf(fr))
+	}
+	mv, err := ps.sol.Values([]*smt.Term{t})
+	if err != nil {
+		i.abort(outInconclusive, "no model at concretisation: %v", err)
+	}
+	v0, _ := smt.ParseVal(mv[t])
+	if ps.check(c.Not(c.Eq(t, c.Const(v0, t.W)))) == smt.Unsat {
+		ps.record(Dec{'r', v0})
+		ps.sol.Assert(c.Eq(t, c.Const(v0, t.W)))
+		return v0
+	}
+	if hi < lo || hi-lo+1 > uint64(ps.concCap) {
+		i.abort(outBound, "more than %d candidate values for %s at %s", ps.concCap, why, i.posOf(fr))
+	}
+	// narrow [lo, hi] to the feasible hull by bisection (holes inside it die as infeasible candidates)
+	if hi-lo >= 8 {
+		a, b := lo, v0 // smallest feasible value is in [a, b]
+		for a < b {
+			m := a + (b-a)/2
+			if ps.check(c.Cmp(smt.OpBvUle, t, c.Const(m, t.W))) == smt.Unsat {
+				a = m + 1
+			} else {
+				b = m
+			}
+		}
+		lo = a
+		a, b = v0, hi // largest feasible value is in [a, b]
+		for a < b {
+			m := a + (b-a+1)/2
+			if ps.check(c.Cmp(smt.OpBvUle, c.Const(m, t.W), t)) == smt.Unsat {
+				b = m - 1
+			} else {
+				a = m
+			}
+		}
+		hi = a
+	}
+	for v := lo; v <= hi; v++ {
+		if v != v0 {
+			ps.forkN(Dec{'r', v})
+		}
+	}
+	ps.record(Dec{'r', v0})
+	ps.sol.Assert(c.Eq(t, c.Const(v0, t.W)))
+	return v0
 }
 
 // concInt concretises an integer-typed value to int64 (sign by the value's own kind when concrete; sym treated via signed flag).
